@@ -568,6 +568,22 @@ def _build():
 
 
 FINDINGS = _build() + [
+    dict(id="C08-double-quote-in-default-later-round-raises", property="C08",
+         pattern=dict(check="fixpoint", quote_in_default=True, field="parse", observed="raises SyntaxError", fmt="docstring"),
+         what="[R-default-quote] Google/NumPy docstring with a doc-derived type: the second round re-reads the unescaped \"say \"hi\"\" prose default and raises SyntaxError",
+         site="cdd/shared/pure_utils.py:quote", example="{'alpha': {'typ': 'Optional[str]', 'doc': 'an integer count', 'default': 'say \"hi\"'}} through docstring-google twice"),
+    dict(id="C08-listof-trigger-respaces-hyphenated-default", property="C08",
+         pattern=dict(check="fixpoint", fmt={"in": ["class", "pydantic"]}, field="default", expected="str", observed="str", typ_class="list", round=2),
+         what="[R-class-listof-trigger] 'list of' in the description turns the type into list; the string default is then re-rendered as code on round 2 ('x-y' -> 'x - y', 'a b' -> code)",
+         site="cdd/docstring/utils/parse_utils.py:parse_adhoc_doc_for_typ / cdd/shared/ast_utils.py:_generic_param2ast", example="{'alpha': {'typ': \"Literal['x-y', 'p q']\", 'doc': 'list of names', 'default': 'x-y'}} through class twice"),
+    dict(id="C08-string-default-with-full-stop-keeps-shrinking", property="C08",
+         pattern=dict(check="fixpoint", dot_in_default=True, field={"in": ["parse", "default"]}, observed={"in": ["raises SyntaxError", "str"]}, fmt={"in": ["docstring", "class", "pydantic"]}),
+         what="[R-default-cut-at-dot] a string default containing a full stop is cut again on round 2 (doc-derived type paths read the prose default): 'a.b' -> 'a' or SyntaxError",
+         site="cdd/shared/defaults_utils.py:extract_default", example="{'alpha': {'typ': 'str', 'doc': 'list of names', 'default': 'a.b'}} through class four times"),
+    dict(id="C08-argparse-literal-special-members-with-doc-default", property="C08",
+         pattern=dict(check="fixpoint", fmt="argparse", field="emit", observed="raises SyntaxError", round=2),
+         what="argparse, Literal with members containing '-' or a space and a description that itself says 'defaults to 3': round 2 raises SyntaxError while building choices from the re-parsed text",
+         site="cdd/shared/ast_utils.py:param2argparse_param", example="{'alpha': {'typ': \"Literal['x-y', 'p q']\", 'doc': 'the value, defaults to 3'}} through argparse twice"),
     dict(id="C08-function-undocumented-code-default-header-newline", property="C08",
          pattern=dict(check="fixpoint", fmt="function", field="header", observed="grew", type_annotations=False, typ_classes="none", default_kinds="code", doc_kinds="nodoc", round=2),
          what="function format without annotations, a single undocumented parameter with a code-quoted default (its dotted type is dropped on round 1): the docstring header gains one "
